@@ -36,7 +36,7 @@ package core
 //@   let base = ite(contractCreation && homestead, uint64(53000), uint64(21000))
 //@   let nzs = countnz(arr(data), off(data), uint64(len(data)))
 //@   ensures[C06] err == nil <==> intrinsic128(base, nzs, uint64(len(data))) <= 18446744073709551615
-//@   ensures[C06] err == nil ==> wide(result0, 128) == intrinsic128(base, nzs, uint64(len(data)))
+//@   ensures[C06] @slow.exact err == nil ==> wide(result0, 128) == intrinsic128(base, nzs, uint64(len(data)))
 //@   ensures[C06] err != nil ==> result0 == 0
 //@   loop 1 invariant[C06] 0 <= $k && $k <= len(data) && nz == countnz(arr(data), off(data), uint64($k)) && nz <= uint64($k)
 //@   assigns nothing
@@ -86,7 +86,7 @@ package core
 //@   ensures[C06] @debit result == nil ==> bal == store(old(bal), sender, old(bal[sender]) - cost)
 //@   ensures[C06] @pool result == nil ==> uint64(*st.gp) == old(uint64(*st.gp)) - msg_gas(st.msg) && st.gas == old(st.gas) + msg_gas(st.msg) && st.initialGas == msg_gas(st.msg)
 //@   ensures[C06] @unchanged result != nil ==> bal == old(bal) && *st.gp == old(*st.gp) && st.gas == old(st.gas)
-//@   assigns st.gas, st.initialGas, *st.gp, bal
+//@   assigns st.gas, st.initialGas, *st.gp, bal, supply
 //@   nopanic[C06]
 
 // Nonce rule: with nonce checking on, the transaction is refused unless the sender's nonce
@@ -96,7 +96,7 @@ package core
 //@   ensures[C06] @nonce result == nil && msg_checknonce(st.msg) ==> old(nonces[msg_from(st.msg)]) == msg_nonce(st.msg)
 //@   ensures[C06] @wrongnonce msg_checknonce(st.msg) && old(nonces[msg_from(st.msg)]) != msg_nonce(st.msg) ==> result != nil && bal == old(bal) && *st.gp == old(*st.gp)
 //@   ensures[C06] @bought result == nil ==> uint64(*st.gp) == old(uint64(*st.gp)) - msg_gas(st.msg) && st.gas == old(st.gas) + msg_gas(st.msg) && st.initialGas == msg_gas(st.msg) && old(uint64(*st.gp)) >= msg_gas(st.msg)
-//@   assigns st.gas, st.initialGas, *st.gp, bal
+//@   assigns st.gas, st.initialGas, *st.gp, bal, supply
 //@   nopanic[C06]
 
 // Refund: capped at half of the gas consumed and at the refund counter; the sender gets the
@@ -110,7 +110,7 @@ package core
 //@   ensures[C06] @exact st.gas - old(st.gas) == ite(used / 2 > refundctr, refundctr, used / 2)
 //@   ensures[C06] @credit bal == store(old(bal), sender, old(bal[sender]) + U(st.gas) * old(big(st.gasPrice)))
 //@   ensures[C06] @pool uint64(*st.gp) == old(uint64(*st.gp)) + st.gas && st.initialGas == old(st.initialGas)
-//@   assigns st.gas, *st.gp, bal
+//@   assigns st.gas, *st.gp, bal, supply
 //@   nopanic[C06]
 
 //@ type Message.To
